@@ -68,6 +68,9 @@ inductive Stmt where
   | tryS (body handler : List Stmt)
   | assertS (c : Expr)
   | pass
+  /-- `continue` / `break` of the innermost `for` -/
+  | continueS
+  | breakS
   | other (src : String)
   deriving Repr, Inhabited
 
@@ -82,6 +85,10 @@ structure Func where
 inductive Ctl (V : Type) where
   | next
   | ret (v : V)
+  /-- `continue`: the rest of the loop body is skipped, the loop goes on -/
+  | cont
+  /-- `break`: the loop ends, the statement after it is next -/
+  | brk
   deriving Repr
 
 abbrev Locals (V : Type) := List (String × V)
@@ -198,6 +205,8 @@ def forLoop (body : Locals V → V → m (Ctl V × Locals V)) : List V → Local
     let (c, loc') ← body loc v
     match c with
     | .next => forLoop body vs loc'
+    | .cont => forLoop body vs loc'
+    | .brk => pure (.next, loc')
     | .ret r => pure (.ret r, loc')
 
 /-- `a, b = v` for names only: positional binding of the unpacked values (a length mismatch is Python's
@@ -241,6 +250,8 @@ def evalStmt (w : World m V) (loc : Locals V) : Stmt → m (Ctl V × Locals V)
     let cv ← evalExpr w loc c
     if (← w.truthy cv) then pure (.next, loc) else w.throw "AssertionError"
   | .pass => pure (.next, loc)
+  | .continueS => pure (.cont, loc)
+  | .breakS => pure (.brk, loc)
   | .other s => do let _ ← w.other s; pure (.next, loc)
 
 def evalBlock (w : World m V) (loc : Locals V) : List Stmt → m (Ctl V × Locals V)
@@ -249,7 +260,7 @@ def evalBlock (w : World m V) (loc : Locals V) : List Stmt → m (Ctl V × Local
     let (c, loc') ← evalStmt w loc s
     match c with
     | .next => evalBlock w loc' rest
-    | .ret r => pure (.ret r, loc')
+    | c => pure (c, loc')
 end
 
 /-- call of a translated function with its parameters bound: the returned value (`None` when the body
@@ -257,7 +268,7 @@ falls off its end) -/
 def Func.run (w : World m V) (f : Func) (args : Locals V) : m V := do
   let (c, _) ← evalBlock w args f.body
   match c with
-  | .next => pure w.none
   | .ret v => pure v
+  | _ => pure w.none
 
 end Viv.Py
